@@ -6,7 +6,7 @@
 //	     (4 min max) Count | (5 e rev) GetRank | (6 e) GetScore | (7 start end rev) GetRange |
 //	     (8 min max rev) GetRangeByScore | (9) Len | (10) probe
 //
-// observed = one result per op: (0 b) bool | (1 z) int | (2 (members)) list | (3) run-time panic |
+// observed = one result per op: (0 b) bool | (0 b h) Add: result and the height of the member's node | (1 z) int | (2 (members)) list | (3) run-time panic |
 //
 //	(4 (headspans headfwds) (nodes) tail length level dict)
 //	node = (score member (spans) (forwards) backward), nodes numbered 1..n along level 0 (0 = nil),
@@ -90,7 +90,8 @@ func run(in Sx) Sx {
 		p, _ := Catch(func() {
 			switch op.At(0).AsInt() {
 			case 0:
-				r = List(Int(0), Bool(s.Add(mem(arg(1)), arg(2))))
+				b := s.Add(mem(arg(1)), arg(2))
+				r = List(Int(0), Bool(b), Int(int64(s.VerifHeightOf(mem(arg(1))))))
 			case 1:
 				r = List(Int(0), Bool(s.Remove(mem(arg(1)))))
 			case 2:
